@@ -144,6 +144,14 @@ class LineMeter:
             self._want[code] = r
         return r
 
+    def set_include(self, include_suffixes):
+        """Switch the set of measured files (between runs); locations disabled for the old set are re-armed."""
+        inc = tuple(include_suffixes)
+        if inc != self.include:
+            self.include = inc
+            self._want = {}
+            mon.restart_events()
+
     def install(self):
         if self.installed:
             return
